@@ -148,3 +148,80 @@ def readref_event(fmt, refmodel, naming, ch, broken):
                        args={'model': refmodel, 'ch': ch, 'broken': broken})
     os.remove(path)
     return ev, text
+
+
+# ---------------------------------------------------------------------------
+# The shipped FaMa / Betty corpus (C09, C02, C16)
+import re  # noqa: E402
+
+STAT_FIELDS = [('nfeat', r'Number of features: (\d+)'), ('mand', r'Mandatory features: (\d+)'),
+               ('opt', r'Optinal features: (\d+)'), ('orrel', r'Or-relationships: (\d+)'),
+               ('altrel', r'Alternative relationships: (\d+)'), ('orsub', r'Subfeatures in or-relationships: (\d+)'),
+               ('altsub', r'Subfeatures in alternative relationships: (\d+)'), ('maxbf', r'Maximum branching factor: (\d+)'),
+               ('maxset', r'Maximum number of children in a set relationship: (\d+)'),
+               ('nctc', r'Cross-tree constraints: (\d+)'), ('req', r'Requires constraints: (\d+)'),
+               ('exc', r'Excludes constraints: (\d+)')]
+ZERO_STATS = {k: 0 for k, _ in STAT_FIELDS}
+
+
+def parse_statistics(path):
+    txt = open(path, encoding='utf-8', errors='replace').read()
+    out = {}
+    for key, rx in STAT_FIELDS:
+        m = re.search(rx, txt)
+        if not m:
+            return None
+        out[key] = int(m.group(1))
+    return out
+
+
+def summarize(post):
+    """The same twelve numbers counted on the projection (validated against the specification's
+    own Stats operator on every file small enough to be judged in full)."""
+    s = dict(ZERO_STATS)
+    s['nfeat'] = len(post['feats'])
+    nchild = {}
+    for r in post['rels']:
+        n, lo, hi = len(r['kids']), r['lo'], r['hi']
+        nchild[r['owner']] = nchild.get(r['owner'], 0) + n
+        if n == 1 and (lo, hi) == (1, 1):
+            s['mand'] += 1
+        elif n == 1 and (lo, hi) == (0, 1):
+            s['opt'] += 1
+        elif n > 1 and (lo, hi) == (1, 1):
+            s['altrel'] += 1
+            s['altsub'] += n
+        elif n > 1 and (lo, hi) == (1, n):
+            s['orrel'] += 1
+            s['orsub'] += n
+        if n > 1:
+            s['maxset'] = max(s['maxset'], n)
+    s['maxbf'] = max(nchild.values()) if nchild else 0
+    s['nctc'] = len(post['ctcs'])
+    s['req'] = sum(1 for c in post['ctcs'] if c['ast']['op'] == 'REQUIRES')
+    s['exc'] = sum(1 for c in post['ctcs'] if c['ast']['op'] == 'EXCLUDES')
+    return s
+
+
+def corpus_event(path, naming_cls, full_bound):
+    """Read one shipped FaMa XML file.  Names are kept as they are (identity naming)."""
+    import names
+    nm = names.identity_naming()
+    nm.abs = lambda c: project_name(c)
+    stats_path = path[:-4] + '.statistics'
+    stats = parse_statistics(stats_path) if os.path.exists(stats_path) else None
+    ev, model = read_event('xml', path, nm, action='ReadCorpus',
+                           args={'file': os.path.relpath(path, '/repo'), 'has_stats': stats is not None,
+                                 'stats': stats or ZERO_STATS})
+    summary = summarize(ev['post']) if ev['out'] == 'value' else dict(ZERO_STATS)
+    ev['ret']['summary'] = summary
+    ev['args']['full'] = ev['out'] == 'value' and len(ev['post']['feats']) <= full_bound
+    if not ev['args']['full']:
+        ev['post'] = {'root': '', 'feats': [], 'rels': [], 'ctcs': []}
+        ev['ret']['ctcfeatures'] = []
+    return ev, model
+
+
+def project_name(c):
+    from project import aesc
+    return aesc(c) if isinstance(c, str) else '?n:<%s>' % type(c).__name__
